@@ -479,7 +479,18 @@ def refresh(ctx: Any) -> List[Ob]:
     otherwise it is purged before its latest TTL runs out."""
     from .c06 import refresh_obligations
 
-    return refresh_obligations(ctx, 'C05.REFRESH')
+    obs = refresh_obligations(ctx, 'C05.REFRESH')
+    # the flush mark itself is applied whenever a record of the datagram carried the cache-flush bit -- also when the datagram
+    # produced nothing else (every record a goodbye for something never cached): rows of the post-loop effect table of C06.ORDER
+    from .c06 import ingest_anatomy, order as _order
+
+    uq = set(ingest_anatomy(ctx)['unique'])
+    for o in _order.fn(ctx):
+        if o.construct.startswith('collections non-empty') and any(repr(u) in o.construct for u in uq):
+            o.rule = 'C05.REFRESH'
+            o.statement += ' -- older records of a flushed rrset are marked to expire whatever else the datagram holds'
+            obs.append(o)
+    return obs
 
 
 LIFETIME_FORMS = {
